@@ -233,7 +233,16 @@ def plan(tier, seed):
                ('RhombicPlanarCode', (2, 2, 7)),
                ('HollowRhombicCode', (2, 2, 7)),
                ('Toric3DCode', (7, 2, 2)), ('XCubeCode', (6, 2, 2)),
-               ('Planar2DCode', (9, 2)), ('RotatedPlanar2DCode', (2, 11))]
+               ('Planar2DCode', (9, 2)), ('RotatedPlanar2DCode', (2, 11)),
+               ('RotatedToric3DCode', (2, 4, 2)),
+               ('RotatedToric3DCode', (4, 2, 2)),
+               ('RotatedToric3DCode', (2, 6, 1)),
+               ('RotatedToric3DCode', (4, 6, 1)),
+               ('Toric2DCode', (2, 7)), ('Toric2DCode', (6, 3)),
+               ('Color488Code', (1, 3)), ('Color488Code', (3, 1)),
+               ('RhombicToricCode', (4, 2, 2)),
+               ('RhombicToricCode', (2, 2, 4)),
+               ('XCubeCode', (2, 2, 5))]
     if tier == 'thorough':
         needles += [('HollowPlanar3DCode', (10, 3, 3)),
                     ('HollowPlanar3DCode', (9, 3, 4)),
